@@ -113,8 +113,8 @@ class NMEA2000Encoder:
         for message in encoded_messages:
             # Construct type byte: data length in bottom 4 bits
             type_byte = (len(message) & 0x0F) | (1 << 7)  # Set the FF bit        
-            # Construct the full packet
-            result.append(bytes([type_byte]) + frame_id_bytes + message)
+            # Construct the full packet: always 13 bytes, data zero-padded to 8 bytes
+            result.append(bytes([type_byte]) + frame_id_bytes + message.ljust(8, b'\x00'))
         return result
 
     def encode_usb(self, nmea2000Message: NMEA2000Message) -> list[bytes]:
